@@ -3,10 +3,14 @@ import LeptosModel.Proofs.ViewSer
 namespace Leptos.View
 open Leptos.Dom
 
-/-- `StateOk d v st parent pre post`: the nodes retained by `st` are exactly a contiguous run of
+-- `R`: how the attribute list of an element relates to the fresh render's (`Eq` for the static
+-- fragment, lookup-equality `AttrsEq` where removal and re-insertion change the order)
+variable {R : List (String × String) → List (String × String) → Prop}
+
+/-- `StateOk R d v st parent pre post`: the nodes retained by `st` are exactly a contiguous run of
 `parent`'s children, between `pre` and `post`, in order, and represent `v` recursively -/
-structure StateOk (d : Dom) (v : View) (st : State) (parent : Id) (pre post : List Id) : Prop where
-  rep : Rep d v st (some parent)
+structure StateOk (R : List (String × String) → List (String × String) → Prop) (d : Dom) (v : View) (st : State) (parent : Id) (pre post : List Id) : Prop where
+  rep : Rep R d v st (some parent)
   inv : Inv d st.roots (owned st) parent pre post
 
 /-- the siblings serialise to `preT` / `postT` (depth budget `n0`) using allocated nodes that are
@@ -42,7 +46,7 @@ theorem SiblingsOk.step {d d' : Dom} {O O' : List Id} {p : Id} {pre post : List 
 /-- what the parent serialises to -/
 theorem StateOk.ser {d : Dom} {v : View} {st : State} {p : Id} {pre post : List Id} {n0 : Nat}
     {preT postT : List Tree} {O : List Id}
-    (h : StateOk d v st p pre post) (hs : SiblingsOk d O p pre post n0 preT postT) :
+    (h : StateOk Eq d v st p pre post) (hs : SiblingsOk d O p pre post n0 preT postT) :
     ∀ m, max n0 v.depth ≤ m → serListN m d (d.kidsOf p) = some (preT ++ render v ++ postT) := by
   intro m hm
   obtain ⟨rp, hp, _, hk⟩ := h.inv.par
@@ -54,11 +58,11 @@ theorem StateOk.ser {d : Dom} {v : View} {st : State} {p : Id} {pre post : List 
 
 /-- `build` then `mount` before the first `post` sibling -/
 theorem build_mount_spec (v : View) (d : Dom) (p : Id) (pre post : List Id) (rp : NodeRec)
-    (hv : AllEl AttrsFresh v)
+    (hv : AllEl (AttrsFresh R) v)
     (hp : d.get? p = some rp) (hpe : rp.kind.isElem = true) (hk : rp.kids = pre ++ post)
     (hplt : p < d.next) (hsl : ∀ x, x ∈ pre ++ post → x < d.next)
     (hanchor : Anchor d p post.head? pre post) :
-    StateOk (mount (build v d).2 (build v d).1 p post.head?) v (build v d).2 p pre post ∧
+    StateOk R (mount (build v d).2 (build v d).1 p post.head?) v (build v d).2 p pre post ∧
     d.next ≤ (mount (build v d).2 (build v d).1 p post.head?).next ∧
     (∀ x, x < d.next → x ≠ p → (mount (build v d).2 (build v d).1 p post.head?).get? x = d.get? x) ∧
     (∀ x, x ∈ owned (build v d).2 → d.next ≤ x) := by
@@ -107,7 +111,7 @@ theorem build_mount_spec (v : View) (d : Dom) (p : Id) (pre post : List Id) (rp 
 
 /-- `unmount` removes exactly the roots of the state from the parent -/
 theorem unmount_spec (v : View) (st : State) (d : Dom) (p : Id) (pre post : List Id)
-    (h : StateOk d v st p pre post) :
+    (h : StateOk R d v st p pre post) :
     (∃ rp', (unmount st d).get? p = some rp' ∧ rp'.kids = pre ++ post) ∧
     (∀ x, x ≠ p → x ∉ st.roots → (unmount st d).get? x = d.get? x) ∧
     (unmount st d).next = d.next := by
